@@ -71,6 +71,63 @@ CHANS = (0, 1, 2, 3)
 CMASKS = (0xFF, 3, 1, 0)
 
 
+def part_facade(_):
+    """The same registrations through the public entry points of Crazyflie (add/remove_header_callback with explicit,
+    partly zero, and defaulted masks; add/remove_port_callback): what is registered is what the handler is given, and
+    removing with the same arguments removes it."""
+    from cflib.crazyflie import Crazyflie
+    p = Partial()
+    regs = [(po, pm, ch, cm) for po in PORTS for pm in PMASKS for ch in CHANS for cm in CMASKS]
+    cf = Crazyflie()
+    hd = cf.incoming
+    packets = [_mk_packet(h, bytes([h])) for h in range(256)]
+    forms = [('explicit', r) for r in regs]
+    forms += [('default_masks', (po, 0xFF, ch, 0xFF)) for po in range(16) for ch in CHANS]
+    forms += [('keywords', r) for r in regs[::7]]
+    forms += [('port_callback', (po, 0xFF, 0, 0)) for po in range(16)]
+    for form, r in forms:
+        log = []
+        cb = (lambda pk, log=log: log.append(pk.data[0]))
+        if form == 'explicit':
+            cf.add_header_callback(cb, r[0], r[2], r[1], r[3])
+        elif form == 'keywords':
+            cf.add_header_callback(cb, r[0], r[2], channel_mask=r[3], port_mask=r[1])
+        elif form == 'default_masks':
+            cf.add_header_callback(cb, r[0], r[2])
+        else:
+            cf.add_port_callback(r[0], cb)
+        cf.link = _Link(packets)
+        err = _run_dispatcher(hd)
+        exp = [h for h in range(256) if _ref_match(r, h)]
+        p.case(key=('facade', form, r), outcome=(form, len(exp)))
+        p.states += 1
+        p.transitions += 256
+        rp = {'part': 'facade', 'form': form, 'reg': list(r)}
+        if err is not None or log != exp:
+            p.violation('facade:%s:delivery' % form, 'registered through Crazyflie (%s) port=%#x mask=%#x chan=%d cmask=%#x: %d '
+                        'deliveries %r.., expected %d %r.. (err=%r)' % (form, r[0], r[1], r[2], r[3], len(log), log[:4], len(exp),
+                                                                       exp[:4], err), rp)
+        # removal with the same arguments
+        if form == 'explicit':
+            cf.remove_header_callback(cb, r[0], r[2], r[1], r[3])
+        elif form == 'keywords':
+            cf.remove_header_callback(cb, r[0], r[2], channel_mask=r[3], port_mask=r[1])
+        elif form == 'default_masks':
+            cf.remove_header_callback(cb, r[0], r[2])
+        else:
+            cf.remove_port_callback(r[0], cb)
+        del log[:]
+        cf.link = _Link(packets)
+        err = _run_dispatcher(hd)
+        if err is not None or log:
+            p.violation('facade:%s:removal' % form, 'after removing it through Crazyflie (%s) with the same arguments the '
+                        'registration port=%#x mask=%#x chan=%d cmask=%#x still got %d packets (err=%r)' % (
+                            form, r[0], r[1], r[2], r[3], len(log), err), rp)
+            break
+    cf.link = None
+    return p
+
+
 def part_match(job):
     from cflib.crazyflie import _IncomingPacketHandler
     kind, headers = job
@@ -659,7 +716,7 @@ def run(ck):
     ck.assume('not demanded: whether a registration added while packet p is dispatched sees p (at most once), or '
               'whether one removed before its turn still sees p')
     L = 3 if ck.quick else 4
-    jobs = [('match', ('all', tuple(range(256)))), ('match', ('single', None)), ('race', None)]
+    jobs = [('match', ('all', tuple(range(256)))), ('match', ('single', None)), ('race', None), ('facade', None)]
     npairs = 54 * 53
     jobs += [('samecb', (lo, min(lo + 360, npairs))) for lo in range(0, npairs, 360)]
     for n in range(1, L + 1):
